@@ -972,6 +972,8 @@ theorem insertTwoColumnsOpts_triv (htriv : ∀ s, cx.ends s = List.range' 1 s.le
     else if pct.num > 2 ^ pct.exp then (1, 0) else (pct.num, pct.exp)) = ne
   obtain ⟨num, exp⟩ := ne
   simp only
+  have hm0 : (if msb < 0 then 0 else msb) = msb := if_neg (by omega)
+  simp only [hm0]
   have hW : (if width < msb + 2 + 2 then msb + 2 + 2 else width) = max width (msb + 4) := by
     split <;> omega
   rw [hW]
